@@ -1,0 +1,17 @@
+//go:build verif
+// +build verif
+
+package plan
+
+// Verification hooks for C06 (unshard pre-check). Add-only; compiled only with
+// the build tag `verif`.
+
+// VerifUnshardPlanInfo returns the database and the statement text an
+// UnshardPlan forwards to the default slice.
+func VerifUnshardPlanInfo(p Plan) (db string, sql string, ok bool) {
+	up, isUnshard := p.(*UnshardPlan)
+	if !isUnshard || up == nil {
+		return "", "", false
+	}
+	return up.db, up.sql, true
+}
